@@ -113,7 +113,9 @@ def scripted(case):
         batches = take(view, k, want is None)
         again = take(view, k, want is None)
       if not made:
-        raise HarnessError('C04: the RandomState seam was never reached')
+        # the implementation no longer obtains its generator through np.random.RandomState: the scripted enumeration
+        # cannot drive it; reported as a cap (the unscripted sub-spaces still judge the behaviour)
+        return {'evals': evals, 'cap': 'RandomState seam not reached: scripted enumeration skipped', 'nontrivial': False}
       require(all(m.seed_arg == hp.seed for m in made), 'RandomState not constructed from hparams.seed',
               hp.seed, [m.seed_arg for m in made])
       stream = check_stream(batches, n, b, chain, hp, want, skip)
@@ -155,6 +157,7 @@ def seeded(case):
   ds, _ = make_ds(n, chain)
   streams = {}
   evals = 0
+  seam_missed = []
   for seed in case['seeds']:
     narrowed = dict(case, seeds=[seed])
     try:
@@ -166,13 +169,14 @@ def seeded(case):
         batches = take(view, k, want is None)
       stream = check_stream(batches, n, b, chain, hp, want, skip)
       seeds_used = [e[1] for e in log if e[0] == 'seed']
-      if not seeds_used:
-        raise HarnessError('C04: the RandomState seam was never reached')
-      require(seeds_used == [seed], 'RandomState not constructed from hparams.seed', [seed], seeds_used)
-      shuffles = sum(1 for e in log if e[0] == 'shuffle')
-      windows = math.ceil(len(stream) / n) if stream else 0
-      require(shuffles == 0 if skip else shuffles >= windows, 'fewer re-shuffles than windows started',
-              0 if skip else windows, shuffles)
+      if seeds_used:  # seam reached (otherwise only the seam-free assertions below apply)
+        require(seeds_used == [seed], 'RandomState not constructed from hparams.seed', [seed], seeds_used)
+        shuffles = sum(1 for e in log if e[0] == 'shuffle')
+        windows = math.ceil(len(stream) / n) if stream else 0
+        require(shuffles == 0 if skip else shuffles >= windows, 'fewer re-shuffles than windows started',
+                0 if skip else windows, shuffles)
+      else:
+        seam_missed.append(1)
       # unpatched: repeated iteration and a separately built view agree
       view2 = ds.shuffle_repeat_batch(batch_size=b, num_epochs=ep, num_steps=st, drop_remainder=drop, seed=seed,
                                       skip_shuffle=skip)
@@ -186,6 +190,8 @@ def seeded(case):
     evals += 1
   info = {'evals': evals, 'outcomes': [core.digest(s) for s in streams.values()],
           'nontrivial': n % b != 0 or b > n}
+  if seam_missed:
+    info['cap'] = 'RandomState recording seam not reached: call-count assertions skipped'
   # non-triviality of the shuffle over the seed set (deterministic given the seeds)
   if not skip and n >= 5 and len(case['seeds']) >= 4:
     long = [s for s in streams.values() if len(s) >= n]
@@ -198,7 +204,35 @@ def seeded(case):
   return info
 
 
-SUBS = {'scripted': scripted, 'seeded': seeded}
+def interleave(case):
+  """Seeded views are independent streams: iterating two of them in lock-step (or nesting one inside the other, or
+  drawing from numpy's global generator in between) must give each exactly its stand-alone batches. No seam is used."""
+  n1, n2, b = case['N1'], case['N2'], case['B']
+  ds1, _ = make_ds(n1, False)
+  ds2, _ = make_ds(n2, True)
+  kw1 = dict(batch_size=b, num_epochs=case['epochs'], seed=case['seed1'])
+  kw2 = dict(batch_size=max(1, b - 1), num_epochs=case['epochs'], seed=case['seed2'])
+  alone1 = [np.asarray(x['i']).tolist() for x in ds1.shuffle_repeat_batch(**kw1)]
+  alone2 = [np.asarray(x['i']).tolist() for x in ds2.shuffle_repeat_batch(**kw2)]
+  z = list(itertools.zip_longest(ds1.shuffle_repeat_batch(**kw1), ds2.shuffle_repeat_batch(**kw2)))
+  got1 = [np.asarray(a['i']).tolist() for a, _ in z if a is not None]
+  got2 = [np.asarray(c['i']).tolist() for _, c in z if c is not None]
+  require(got1 == alone1 and got2 == alone2, 'two seeded views iterated in lock-step do not reproduce their stand-alone '
+          'batches (shared generator state)', [alone1, alone2], [got1, got2])
+  nested = []
+  for a in ds1.shuffle_repeat_batch(**kw1):
+    nested.append(np.asarray(a['i']).tolist())
+    inner = [np.asarray(c['i']).tolist() for c in ds2.shuffle_repeat_batch(**kw2)]
+    require(inner == alone2, 'a seeded view iterated inside the loop over another one differs from its stand-alone batches',
+            alone2, inner)
+    np.random.seed(len(nested))
+    np.random.rand(3)
+  require(nested == alone1, 'a seeded stream is disturbed by other streams / numpy\'s global generator used between its '
+          'batches', alone1, nested)
+  return {'evals': 3, 'nontrivial': case['epochs'] > 1, 'outcome': [alone1[:2], alone2[:2]]}
+
+
+SUBS = {'interleave': interleave, 'scripted': scripted, 'seeded': seeded}
 
 
 def configs(ns, bs, epochs, steps):
@@ -218,6 +252,8 @@ def plan(ctx):
               'N mod B != 0 or B > N (a batch straddles a refill)')
   ctx.assumptions += ['infinite streams (num_epochs=None and num_steps=None) are cut after 3*ceil(N/B)+2 batches',
                       'RandomState.shuffle answers some permutation (all of them are enumerated for N<=4)']
+  ctx.run('interleave', [{'N1': n1, 'N2': n2, 'B': b, 'epochs': ep, 'seed1': s1, 'seed2': s1 + 1}
+                         for n1 in (3, 5) for n2 in (2, 4) for b in (2, 3) for ep in (1, 2, 3) for s1 in (0, 7)])
   sc = []
   for n, b, ep, st, drop in configs(range(1, 5), range(1, 11) if th else [1, 2, 3, 4, 5, 7, 10], epochs, steps):
     max_ref = 3 if (n <= 3 and th) else 2
